@@ -54,7 +54,8 @@ CHECKS["C04"] = dict(
    text="Machine-checked invariant proof over ALL item streams (= all audio, whatever the DSP makes of it): every StartOfMessage "
         "event of a fresh receiver is combine() of at most three consecutive bursts reported before it (hence, by C03's theorem, "
         "backed byte by byte by two agreeing bursts or the majority of three); no bursts or a lone burst can never give a "
-        "StartOfMessage. The EndOfMessage half is checked by the oracle on every trace (timer theorems are in C09). Correspondence: "
+        "StartOfMessage. Both kinds: every message event (StartOfMessage or EndOfMessage) is either combine() of at most three consecutive "
+        "bursts reported before it or, for EndOfMessage only, the armed and elapsed 135 s timer. Correspondence: "
         "valid/lossy/corrupted transmissions and near-miss audio through the real receiver, replayed through the model.",
    note=RX_NOTE + " Hypothesis: frame_prefix_max_errors <= 7 (builder clamp).",
    technique="Coq invariant proof (induction over item streams) + tick-trace replay correspondence + justification oracle",
@@ -102,8 +103,10 @@ CHECKS["C02"] = dict(
         "canonical header plus one arbitrary burst (any bytes, any length) in any of the three positions, or one burst lost, give exactly "
         "one StartOfMessage with text H and the C03 counters, released by the first idle poll 682 symbols after the last burst; any single "
         "burst with any polling never gives a StartOfMessage; 1..3 bursts starting NN combine to EndOfMessage and a three-burst trailer on a "
-        "quiet channel yields exactly one message, at the first burst (fast EOM). The full statement is refuted on the faithful model for two "
-        "histories (F2, F8: witness lemmas, replayed on the implementation) which are known findings. Partial: trailer-after-header "
+        "quiet channel yields exactly one message, at the first burst (fast EOM); a trailer that follows the header with no voice gap, all six "
+        "bursts heard, still gives exactly StartOfMessage then EndOfMessage. The statements are also instantiated at random parameters and "
+        "compared with the real Assembler on every run (a test of the statements). The full statement is refuted on the faithful model for two "
+        "history classes (F2, F8, F9: witness lemmas, replayed on the implementation) which are known findings. Partial: trailer-after-header "
         "interleavings and junk after the header are covered by the abstract-combine form of the theorem plus correspondence, not by a closed theorem.",
    note=ASM_NOTE,
    technique="Coq scenario proofs (symbolic times/contents, macro-step lemmas) + refuted-witness lemmas + assembler/receiver differential correspondence",
@@ -112,7 +115,8 @@ CHECKS["C05"] = dict(
    text="Machine-checked invariant proof for EVERY history of burst arrivals and idle polls with a monotone clock: two consecutive reports "
         "with equal text are at least MAX_HISTORY_DURATION (5652 symbols, 10.86 s) apart (duplicate suppression inside the window), from "
         "the initial state and from any state satisfying the invariant; scenario proofs that the same header is reported again once the "
-        "window has passed and that a trailer is reported exactly once. 'In order, including transmissions one second apart' is refuted on "
+        "window has passed, that a trailer is reported exactly once, and that a second, different transmission following a complete one is "
+        "reported once and after it. 'In order, including transmissions one second apart' is refuted on "
         "the faithful model (F1 witness lemma, replayed on the implementation; also F8) and listed as known findings; order for "
         "transmissions further apart is checked by the scenario oracle on histories, not by a closed theorem.",
    note=ASM_NOTE,
@@ -170,7 +174,8 @@ CHECKS["C01"] = dict(
         "header received intact three times and any bursts beginning NN. With C03/C04/C07 this is the logic from bytes to messages. "
         "That the float chain delivers such bursts for audio at every rate 8000..96000 with the stated impairments is validated by "
         "sampling the real receiver (never presented as proof): per run the burst-level premise, the tick-trace replay through the "
-        "extracted model, and the exact-decode oracle.",
+        "extracted model, and the exact-decode oracle. Known finding F9 (junk after the header voting to callsign characters: witness "
+        "lemmas on the model, witness recording replayed on the receiver).",
    note=RX_NOTE + " The sampled envelope is printed in the evidence (rates, amplitudes, DC up to 5x the amplitude, baud error +/-1 %, "
         "SNR >= 20 dB, preamble-like header characters).",
    technique="Coq scenario proof (symbolic six-burst history) + tick-trace replay correspondence + sampled validation of the DSP premise",
